@@ -78,7 +78,33 @@ ArraysElementwise == (a.k = "arr" /\ b.k = "arr" /\ Len(a.v) = Len(b.v)) =>
 ContainsMembership == (a.k = "arr") => Contains3(a, b) = AnyT3([n \in 1..Len(a.v) |-> Eq3(a.v[n], b)])
 TruthyOnlyNilFalse == Truthy(a) = ~(IsNil(a) \/ (a.k = "bool" /\ a.v = FALSE))
 
+\* The same pair in other Go representations (the bit table must not change): integer and float widths,
+\* pointers, Drops (also as elements of an array), typed and nil slices.  Two variants per pair, the
+\* representation of each operand picked from its choices by the pair's indices.
+AllInts(v) == \A n \in 1..Len(v.v) : v.v[n].k = "int"
+RepChoices(v) ==
+  CASE v.k = "int" -> IF v.v >= 0 /\ v.v < 128 THEN <<"uint8", "int64", "drop", "ptr", "uint64", "int8">>
+                      ELSE IF v.v >= 0 THEN <<"uint32", "int64", "drop", "ptr">> ELSE <<"int32", "int64", "drop">>
+    [] v.k = "flt" -> <<"float32", "drop", "ptr">>
+    [] v.k = "str" -> <<"drop", "ptr", "dropdrop">>
+    [] v.k = "bool" -> <<"drop", "ptr">>
+    [] v.k = "nil" -> <<"drop", "nilptr">>
+    [] v.k = "big" -> <<"drop">>
+    [] v.k = "map" -> <<"drop", "ptr">>
+    [] v.k = "arr" -> IF Len(v.v) = 0 THEN <<"drop", "nilslice", "ptr">>
+                      ELSE <<"elem0", "drop", "elemlast", "ptr">> \o (IF AllInts(v) THEN <<"ints", "int64s">> ELSE <<>>)
+Hint(name, v, ch) ==
+  CASE ch = "elem0" -> (name \o "/0") :> "drop"
+    [] ch = "elemlast" -> (name \o "/" \o ToString(Len(v.v) - 1)) :> "drop"
+    [] OTHER -> name :> ch
+Pick(v, n) == RepChoices(v)[(n % Len(RepChoices(v))) + 1]
+ReprFor(var) == IF var = 1 THEN Hint("a", a, Pick(a, i + j))
+                ELSE Hint("a", a, Pick(a, i + j + 1)) @@ Hint("b", b, Pick(b, i + 2 * j))
+
 EmitCase ==
+  /\ \A var \in 1..2 :
+       PrintT(ToJson([id |-> "rep" \o ToString(var) \o "-" \o ToString(i) \o "-" \o ToString(j), kind |-> "render", tm |-> "TraceC09",
+                      a |-> a, b |-> b, prog |-> Prog, env |-> << <<A, a>>, <<B, b>> >>, repr |-> ReprFor(var)]))
   /\ PrintT(ToJson([id |-> "cmp-" \o ToString(i) \o "-" \o ToString(j), kind |-> "render", tm |-> "TraceC09",
                     a |-> a, b |-> b, prog |-> Prog, env |-> << <<A, a>>, <<B, b>> >>]))
   /\ PrintT(ToJson([id |-> "obj-" \o ToString(i) \o "-" \o ToString(j), kind |-> "render", tm |-> "TraceRender",
